@@ -12,6 +12,7 @@ numeric report tags `-` (missing) | `bad` | `n<int>`.
   oo.act  cNew | cCancel | cReplace <p|-> <q|-> | cRecv | xRecv <d> | xDecide <d> | xAck | xRejNew
           | xFill <q> <px> | xExpire | xSuspend | xResume          (d = accept | reject | pend)
   oo.actf raises|bumps|reenters cNew | cCancel | cReplace <p|-> <q|->    (builder whose overridden hook misbehaves)
+  oo.recvomit <mask>   like `oo.act cRecv`, the report delivered without Price (1) / OrderQty (2)
   oo.feed <msgtype> <11> <41> <37> <150> <39> <14> <151> <6> <44> <38>   (report straight into the order)
   oo.push            remember the current link, reply its index
   oo.load <i>
@@ -192,6 +193,22 @@ def handle (st : St) (cmd : String) (args : List String) : St × String :=
       let seen := match out with | .built _ => seen | _ => ""
       ({ st with cur := some l' }, linkT (outT out ++ seen) l')
     | _, _, _ => (st, "bad-op")
+  | "recvomit", [mask] =>
+    -- the client processes the next report, delivered WITHOUT the optional Price (bit 1) / OrderQty (bit 2) tags
+    match st.cur, mask.toNat? with
+    | some l, some k =>
+      match l.e2c with
+      | [] => (st, linkT (outT .empty) l)
+      | r :: rest =>
+        let r1 := if k % 2 == 1 then { r with price := .missing } else r
+        let r2 := if k / 2 % 2 == 1 then { r1 with orderQty := .missing } else r1
+        let (o, res) := feed l.order r2
+        let l' := { l with order := o, e2c := rest }
+        let out := match res with
+          | .ok b => StepOut.ret b
+          | .raised e => StepOut.raised e
+        ({ st with cur := some l' }, linkT (outT out) l')
+    | _, _ => (st, "bad-op")
   | "feed", toks =>
     match st.cur, tokReport toks with
     | some l, some r =>
